@@ -1,6 +1,8 @@
 package http2
 
 import (
+	"bufio"
+
 	"github.com/dgrr/http2/http2utils"
 )
 
@@ -171,4 +173,55 @@ func (h *Headers) Serialize(frh *FrameHeader) {
 	}
 
 	frh.payload = append(frh.payload[:0], h.rawHeaders...)
+}
+
+// writeHeaderBlock writes the HEADERS frame fr, whose body is h, and continues
+// the header block in CONTINUATION frames when it does not fit in one frame of
+// max octets. A header block has no size limit of its own, but every frame
+// that carries a piece of it is subject to the peer's SETTINGS_MAX_FRAME_SIZE,
+// HEADERS and CONTINUATION included (RFC 7540 4.2, 6.10). The caller must be
+// the only writer on bw for the duration of the call: nothing may come between
+// the frames of a header block.
+func writeHeaderBlock(bw *bufio.Writer, fr *FrameHeader, h *Headers, max int) error {
+	if max <= 0 {
+		max = defaultMaxLen
+	}
+
+	if len(h.rawHeaders) <= max || h.hasPadding || h.priority {
+		_, err := fr.WriteTo(bw)
+
+		return err
+	}
+
+	block, endHeaders := h.rawHeaders, h.endHeaders
+
+	h.rawHeaders, h.endHeaders = block[:max], false
+	_, err := fr.WriteTo(bw)
+	h.rawHeaders, h.endHeaders = block, endHeaders
+
+	if err != nil {
+		return err
+	}
+
+	cfr := AcquireFrameHeader()
+	defer ReleaseFrameHeader(cfr)
+
+	c := AcquireFrame(FrameContinuation).(*Continuation)
+	cfr.SetStream(fr.Stream())
+	cfr.SetBody(c)
+
+	for rest := block[max:]; len(rest) > 0 && err == nil; {
+		n := len(rest)
+		if n > max {
+			n = max
+		}
+
+		c.SetHeader(rest[:n])
+		rest = rest[n:]
+		c.SetEndHeaders(len(rest) == 0 && endHeaders)
+
+		_, err = cfr.WriteTo(bw)
+	}
+
+	return err
 }
